@@ -350,6 +350,106 @@ impl Drv {
                     Err(e) => format!("err({}) active={}", err_class(&e), active as u8),
                 }
             }
+            "CONT_SLICED" => {
+                // ["CONT_SLICED", [n1, n2, ..]]: one line, obtained by time-limited continues
+                // that pause after n1, n2, .. single steps (virtual clock); when the schedule
+                // is exhausted the remaining continue runs to the end of the line
+                let sched: Vec<u32> = arr
+                    .get(1)
+                    .and_then(|x| x.as_array())
+                    .map(|a| a.iter().filter_map(|x| x.as_u64()).map(|x| x as u32).collect())
+                    .unwrap_or_default();
+                bladeink::verif::set_pause_schedule(&sched);
+                let mut slices = 0;
+                let r = loop {
+                    let st = self.story.as_mut().unwrap();
+                    slices += 1;
+                    match st.continue_async(1.0e9) {
+                        Ok(()) => {
+                            if !st.verif_is_async_active() {
+                                break Ok(());
+                            }
+                            if slices > 100000 {
+                                break Ok(());
+                            }
+                        }
+                        Err(e) => break Err(e),
+                    }
+                };
+                bladeink::verif::set_pause_schedule(&[]);
+                let st = self.story.as_mut().unwrap();
+                match r {
+                    Ok(()) => match st.get_current_text() {
+                        Ok(t) => {
+                            *self.lines.borrow_mut() += 1;
+                            format!("ok({})", q(&t))
+                        }
+                        Err(e) => format!("err({})", err_class(&e)),
+                    },
+                    Err(e) => format!("err({})", err_class(&e)),
+                }
+            }
+            "FINISH" => {
+                // complete an unfinished time-limited continue (if any); returns the line
+                let st = self.story.as_mut().unwrap();
+                if st.verif_is_async_active() {
+                    match st.cont() {
+                        Ok(t) => {
+                            *self.lines.borrow_mut() += 1;
+                            format!("ok({})", q(&t))
+                        }
+                        Err(e) => format!("err({})", err_class(&e)),
+                    }
+                } else {
+                    match st.get_current_text() {
+                        Ok(t) => format!("ok({})", q(&t)),
+                        Err(e) => format!("err({})", err_class(&e)),
+                    }
+                }
+            }
+            "STACKINFO" => {
+                // structural facts of the current state, read off the save document
+                let st = self.story.as_ref().unwrap();
+                match st.save_state() {
+                    Ok(s) => {
+                        let v: J = serde_json::from_str(&s).unwrap_or(J::Null);
+                        let cur = v.get("currentFlowName").and_then(|x| x.as_str()).unwrap_or("").to_owned();
+                        let flow = v.get("flows").and_then(|f| f.get(&cur));
+                        let threads: Vec<String> = flow
+                            .and_then(|f| f.get("callstack"))
+                            .and_then(|c| c.get("threads"))
+                            .and_then(|t| t.as_array())
+                            .map(|a| {
+                                a.iter()
+                                    .map(|t| {
+                                        t.get("callstack")
+                                            .and_then(|c| c.as_array())
+                                            .map(|c| c.len())
+                                            .unwrap_or(0)
+                                            .to_string()
+                                    })
+                                    .collect()
+                            })
+                            .unwrap_or_default();
+                        let nflows = v.get("flows").and_then(|f| f.as_object()).map(|o| o.len()).unwrap_or(0);
+                        let nchoices = flow
+                            .and_then(|f| f.get("currentChoices"))
+                            .and_then(|c| c.as_array())
+                            .map(|c| c.len())
+                            .unwrap_or(0);
+                        let neval = v.get("evalStack").and_then(|c| c.as_array()).map(|c| c.len()).unwrap_or(0);
+                        format!(
+                            "ok(threads=[{}] flows={} choices={} eval={} turn={})",
+                            threads.join(","),
+                            nflows,
+                            nchoices,
+                            neval,
+                            v.get("turnIdx").and_then(|x| x.as_i64()).unwrap_or(0)
+                        )
+                    }
+                    Err(e) => format!("err({})", err_class(&e)),
+                }
+            }
             "CHOOSE" => {
                 let i = arr.get(1).and_then(|x| x.as_i64()).unwrap_or(0);
                 let st = self.story.as_mut().unwrap();
